@@ -68,7 +68,8 @@ func registerAll() {
 	tcell.RegisterEncoding("EUC-KR", korean.EUCKR)
 
 	tcell.RegisterEncoding("GB18030", simplifiedchinese.GB18030)
-	tcell.RegisterEncoding("GB2312", simplifiedchinese.HZGB2312)
+	tcell.RegisterEncoding("GB2312", GB2312)
+	tcell.RegisterEncoding("HZ-GB-2312", simplifiedchinese.HZGB2312)
 	tcell.RegisterEncoding("GBK", simplifiedchinese.GBK)
 
 	tcell.RegisterEncoding("Big5", traditionalchinese.Big5)
